@@ -161,6 +161,71 @@ def Space.genRandomId (s : Space) (u : Sub) (draws : List Nat) : Option Nat :=
       else (0, 0, 0, 0, st)
   if st.ok && st.rest.isEmpty then some ((b3 <<< 24) ||| (b2 <<< 16) ||| (b1 <<< 8) ||| b0) else none
 
+/-! ### bounds requested by `gen_random_id` (addition; nothing above depends on it)
+
+`genRandomId` only checks each draw `d` against the bound `n` the code passes to `secrets.randbelow(n)`.
+`genBounds` returns those `n` themselves, in call order, for the same traversal (a later bound may depend on
+an earlier draw: `byte_2 == 0`); a missing draw is read as 0. The harness compares them with the bounds the
+real code requests, so a bound that is too small (a member that can never be generated) is a K mismatch even
+when the scripted draw happens to be legal for both. -/
+
+structure DrawLog where
+  rest : List Nat
+  asked : List Nat := []
+
+def drawL (n : Nat) (st : DrawLog) : Nat × DrawLog :=
+  match st.rest with
+  | [] => (0, { st with asked := st.asked ++ [n] })
+  | d :: ds => (d, { rest := ds, asked := st.asked ++ [n] })
+
+def Sub.randByteL (u : Sub) (st : DrawLog) : Nat × DrawLog :=
+  let (d, st) := drawL (u.e - u.b) st; (d + u.b, st)
+def Sub.randNonzeroByteL (u : Sub) (st : DrawLog) : Nat × DrawLog :=
+  if u.b ≤ 0 then let (d, st) := drawL (u.e - 1) st; (d + 1, st) else u.randByteL st
+
+/-- `gen_random_id` once more, logging the bound of every `randbelow` call: (id, bounds in call order). -/
+def Space.genRandomIdLog (s : Space) (u : Sub) (draws : List Nat) : Nat × List Nat :=
+  let st : DrawLog := { rest := draws }
+  let (b0, b1, b2, b3, st) : Nat × Nat × Nat × Nat × DrawLog :=
+    if s.use3rd then
+      let (b3, st) := u.randNonzeroByteL st
+      if s.colorBits = 8 then
+        let (d, st) := drawL 255 st
+        (d + 1, 0, 0, b3, st)
+      else if s.colorBits = 24 then
+        let (b0, st) := drawL 256 st
+        let (b2, st) := drawL 256 st
+        if b2 = 0 then let (d, st) := drawL 255 st; (b0, d + 1, b2, b3, st)
+        else let (d, st) := drawL 256 st; (b0, d, b2, b3, st)
+      else (0, 0, 0, b3, st)
+    else
+      if s.colorBits = 8 then
+        let (b0, st) := u.randNonzeroByteL st
+        (b0, 0, 0, 0, st)
+      else if s.colorBits = 24 then
+        let (b0, st) := drawL 256 st
+        let (b2, st) := u.randByteL st
+        if b2 = 0 then let (d, st) := drawL 255 st; (b0, d + 1, b2, 0, st)
+        else let (d, st) := drawL 256 st; (b0, d, b2, 0, st)
+      else (0, 0, 0, 0, st)
+  ((b3 <<< 24) ||| (b2 <<< 16) ||| (b1 <<< 8) ||| b0, st.asked)
+
+def Space.genBounds (s : Space) (u : Sub) (draws : List Nat) : List Nat := (s.genRandomIdLog u draws).2
+
+/-- Number of distinct draw sequences `gen_random_id` can consume for `(s, u)` (leaves of its draw tree),
+    in closed form from the bounds above: the product along a path, summed over the `byte_2 == 0` fork. -/
+def Space.genLeaves (s : Space) (u : Sub) : Nat :=
+  if s.use3rd then
+    let n3 := if u.b ≤ 0 then u.e - 1 else u.e - u.b
+    if s.colorBits = 8 then n3 * 255
+    else if s.colorBits = 24 then n3 * 256 * (1 * 255 + 255 * 256)
+    else n3
+  else
+    if s.colorBits = 8 then (if u.b ≤ 0 then u.e - 1 else u.e - u.b)
+    else if s.colorBits = 24 then
+      256 * ((if u.b ≤ 0 then 255 else 0) + (if u.b ≤ 0 then u.e - u.b - 1 else u.e - u.b) * 256)
+    else 1
+
 /-- `IDSpace.__str__` -/
 def Space.name (s : Space) : String :=
   if s.numNonzeroBits = 8 ∧ s.use3rd then "8bit_diacritic" else s!"{s.numNonzeroBits}bit"
